@@ -163,6 +163,17 @@ def run_real(case):
       return 'readfailed'
     except Exception as e:  # pylint: disable=broad-except
       return 'other:' + type(e).__name__
+  if kind == 'M':
+    tr = FakeTransport()
+    ad = am.AdbTransportAdapter(tr)
+    msg = am.AdbMessage(case['cmd'], case['a0'], case['a1'], usbstub.unhexs(case['datas'][0]))
+    frames = []
+    for dh in case['datas']:
+      msg.data = usbstub.unhexs(dh)
+      before = len(tr.written)
+      ad.write_message(msg, timeouts.PolledTimeout.from_millis(5000))
+      frames.append([_hx(d) for d, _ in tr.written[before:]])
+    return {'frames': frames}
   if kind == 'L':
     n = case['threads']
     mode = case['mode']
@@ -178,10 +189,12 @@ def run_real(case):
     def body(i):
       for k in range(case.get('msgs', 1)):
         try:
+          # threads listed in case['short'] bring a timeout that runs out while another thread is mid-message
+          ms = case.get('short_ms', 25) if i in (case.get('short') or []) else 60000
           if mode == 'write':
-            ad.write_message(am.AdbMessage('WRTE', i, k, 'p' * (i + 1)), timeouts.PolledTimeout.from_millis(60000))
+            ad.write_message(am.AdbMessage('WRTE', i, k, 'p' * (i + 1)), timeouts.PolledTimeout.from_millis(ms))
           else:
-            m = ad.read_message(timeouts.PolledTimeout.from_millis(60000))
+            m = ad.read_message(timeouts.PolledTimeout.from_millis(ms))
             results.setdefault(i, []).append(len(m.data))
         except Exception as e:  # pylint: disable=broad-except
           results.setdefault(i, []).append(type(e).__name__)
@@ -211,6 +224,11 @@ def encode(case, obs):
                                           ' '.join(obs['chunks']) + ((' err:' + obs['err']) if obs['err'] else ''))
   if k == 'R':
     return 'C13 R %d %s # %s' % (len(case['script']), ' '.join(c or '-' for c in case['script']), obs)
+  if k == 'M':
+    # a write of the (mutated) message must be the frame of its current fields
+    # (the last write, after all replacements, as a W line)
+    return 'C13 W %s %d %d %s 0 # %s' % (case['cmd'], case['a0'], case['a1'], case['datas'][-1] or '-',
+                                         ' '.join(obs['frames'][-1]))
   extra = ''
   if obs['hung']:
     extra = ' 9:h'   # a hung thread makes the log ill-framed on purpose
@@ -226,7 +244,9 @@ def classify(case, obs):
     return 'R/' + obs.split(':')[0]
   if case['kind'] == 'W':
     return 'W/' + case['timeout']
-  return 'L/' + case['mode']
+  if case['kind'] == 'M':
+    return 'M/reused-message'
+  return 'L/' + case['mode'] + ('/short-timeout' if case.get('short') else '')
 
 
 def nontrivial_key(case, obs):
@@ -314,6 +334,16 @@ def gen_cases(rng, tier):
     for s in scheds if tier == 'thorough' else scheds[::2] + [[0, 1, 0, 1], [1, 0, 1, 0]]:
       cases.append({'kind': 'L', 'mode': mode, 'threads': max(s) + 1 if max(s) > 0 else 2, 'schedule': s,
                     'msgs': 2 if sum(s) % 2 else 1})
+  # a thread whose timeout runs out while it waits for the lock held by a thread that is between header and payload
+  # (the controller waits 0.12 s for the thread it wants next, longer than the short timeout)
+  for mode in ('write', 'read'):
+    for s, short in (([0, 1, 1, 0], [1]), ([1, 0, 0, 1], [0]), ([0, 1, 0, 1], [1]), ([0, 1, 1, 0], [0, 1])):
+      cases.append({'kind': 'L', 'mode': mode, 'threads': 2, 'schedule': s, 'msgs': 1, 'short': short, 'short_ms': 25})
+  # one AdbMessage object written again after its public `data` attribute was replaced
+  for i in range(6 if tier == 'quick' else 60):
+    r = rng.derive('reuse%d' % i)
+    cases.append({'kind': 'M', 'cmd': r.choice(['WRTE', 'OPEN']), 'a0': r.randrange(1, 99), 'a1': r.randrange(1, 99),
+                  'datas': [_payload(r.choice([0, 1, 3, 7]), r) for _ in range(r.choice([2, 3]))]})
   return cases
 
 
